@@ -151,6 +151,7 @@ structure AdlRes where
   blockVal : Option Nat  -- value of the Block1 option in the PDU (none = absent)
   payload : Nat          -- payload bytes added to the first PDU
   used : Nat             -- pdu->used_size afterwards (token + options + marker + payload)
+  hdr : Nat              -- token + options part of `used`
   deriving Repr, DecidableEq
 
 def echoReserve : Nat := optEncodeSize 252 40     -- coap_opt_encode_size(COAP_OPTION_ECHO, 40)
@@ -165,55 +166,61 @@ def adlBlkSize (avail : Int) : Nat :=
   let b := ((f - 5) % 256).toNat      -- uint8_t
   if b > 6 then 6 else b
 
+/-- `coap_add_data(pdu, rem, …)` on a PDU whose token + options take `tokOpts` bytes, and the result record -/
+def adlFinish (maxSize tokOpts rem : Nat) (lg : Bool) (b : Nat) (bv : Option Nat) : Option AdlRes :=
+  if rem ≠ 0 ∧ tokOpts + 1 + rem > maxSize then none      -- coap_add_data fails (coap_pdu_resize beyond max_size)
+  else some { lgXmit := lg, blkSize := b, blockVal := bv, payload := rem,
+              used := tokOpts + (if rem = 0 then 0 else 1 + rem), hdr := tokOpts }
+
+/-- lg_xmit branch after `setup_block_b` returned `sb`: `base` = token + application options (without Block1),
+`d` = option delta of Block1, `extra` = Size1 + Request-Tag bytes, `b2` = block size chosen by the first stage. -/
+def adlLgTail (maxSize tokLen base d b2 length extra : Nat) (sb : BlockB) : Option AdlRes :=
+  let chunk : Nat := 2 ^ (b2 + 4)
+  let bv := blockValue sb.num sb.m sb.aszx
+  let tokOpts1 := base + optEncodeSize d (varLen bv) + extra
+  -- "Check we still have space after adding in some options"
+  let avail2 := adlAvail maxSize tokOpts1 tokLen
+  if avail2 < chunk then
+    if avail2 < 16 then none
+    else
+      let b3 := adlBlkSize avail2
+      let bv3 := blockValue ((sb.num * 2 ^ (b2 - b3)) % 2 ^ 32) sb.m b3
+      let tokOpts2 := base + optEncodeSize d (varLen bv3) + extra
+      adlFinish maxSize tokOpts2 (min (2 ^ (b3 + 4)) length) true b3 (some bv3)
+  else
+    adlFinish maxSize tokOpts1 (min sb.chunk length) true b2 (some bv)
+
+/-- "No need to use blocks" branch -/
+def adlNoBlock (maxSize base d b2 length : Nat) (blk : Option Nat) : Option AdlRes :=
+  let bvOpt := match blk with | some _ => some (blockValue 0 0 b2) | none => none
+  let tokOpts1 := base + (match bvOpt with | some v => optEncodeSize d (varLen v) | none => 0)
+  adlFinish maxSize tokOpts1 length false b2 bvOpt
+
+/-- the three-way decision of `coap_add_data_large_internal` once the block size `b2` is known:
+`tokOpts0` = token + options as handed in, `extra` = Size1 + Request-Tag bytes -/
+def adlBody (maxSize tokLen base d tokOpts0 b2 length extra : Nat) (blk : Option Nat) : Option AdlRes :=
+  let avail := adlAvail maxSize tokOpts0 tokLen
+  if avail < 16 ∧ ((length : Int) > avail ∨ blk.isSome) then none   -- "even the smallest block does not fit (2)"
+  else if (blk.isSome ∧ length > 2 ^ (b2 + 4)) ∨ (length : Int) > avail then
+    -- lg_xmit branch: Size1 + Request-Tag added, then setup_block_b, then Block1 updated/inserted
+    match setupBlockB maxSize (tokOpts0 + extra) 0 b2 length with
+    | none => none
+    | some sb => adlLgTail maxSize tokLen base d b2 length extra sb
+  else adlNoBlock maxSize base d b2 length blk
+
 /-- The PDU handed in: `tokLen`-byte token, options of total encoded size `optBytes` whose highest number is
 `lastOpt` (< 27), optionally a Block1 option (number 27) with value `(0, 0, szx)` (`blk = some szx`).
 Options added by libcoap: Size1 (60), Request-Tag (292, value `rtagLen` bytes), Block1 if absent.
 `maxBlk` = COAP_BLOCK_MAX_SIZE_GET(block_mode).  `none` = return 0 (fail). -/
 def addDataLarge (maxSize tokLen optBytes lastOpt : Nat) (blk : Option Nat) (maxBlk length rtagLen : Nat) :
     Option AdlRes :=
-  let blkOptLen (v : Nat) := optEncodeSize (27 - lastOpt) (varLen v)
-  let tokOpts0 := tokLen + optBytes + (match blk with | some s => blkOptLen (blockValue 0 0 s) | none => 0)
-  let avail := adlAvail maxSize tokOpts0 tokLen
-  let b0 := adlBlkSize avail
+  let d := 27 - lastOpt
+  let tokOpts0 := tokLen + optBytes + (match blk with | some s => optEncodeSize d (varLen (blockValue 0 0 s)) | none => 0)
+  let b0 := adlBlkSize (adlAvail maxSize tokOpts0 tokLen)
   let b1 := if maxBlk ≠ 0 ∧ b0 > maxBlk then maxBlk else b0
-  let have_block := blk.isSome
   let b2 := match blk with | some s => if s < b1 then s else b1 | none => b1
-  if avail < 16 ∧ ((length : Int) > avail ∨ have_block) then none
-  else
-    let chunk := 2 ^ (b2 + 4)
-    if (have_block ∧ length > chunk) ∨ (length : Int) > avail then
-      -- lg_xmit branch: Size1 + Request-Tag added, Block1 updated/inserted by setup_block_b's result
-      let size1 := optEncodeSize (60 - 27) (varLen length)
-      let rtag := optEncodeSize (292 - 60) rtagLen
-      match setupBlockB maxSize (tokOpts0 + size1 + rtag) 0 b2 length with
-      | none => none
-      | some sb =>
-        let bv := blockValue sb.num sb.m sb.aszx
-        let tokOpts1 := tokLen + optBytes + blkOptLen bv + size1 + rtag
-        let avail2 := adlAvail maxSize tokOpts1 tokLen
-        if avail2 < chunk then
-          if avail2 < 16 then none
-          else
-            let b3 := adlBlkSize avail2
-            let chunk3 := 2 ^ (b3 + 4)
-            let bv3 := blockValue ((sb.num * 2 ^ (b2 - b3)) % 2 ^ 32) sb.m b3
-            let tokOpts2 := tokLen + optBytes + blkOptLen bv3 + size1 + rtag
-            let rem := if chunk3 > length then length else chunk3
-            if tokOpts2 + 1 + rem > maxSize then none      -- coap_add_data fails
-            else some { lgXmit := true, blkSize := b3, blockVal := some bv3, payload := rem,
-                        used := tokOpts2 + (if rem = 0 then 0 else 1 + rem) }
-        else
-          let rem := if sb.chunk > length then length else sb.chunk
-          if tokOpts1 + 1 + rem > maxSize then none
-          else some { lgXmit := true, blkSize := b2, blockVal := some bv, payload := rem,
-                      used := tokOpts1 + (if rem = 0 then 0 else 1 + rem) }
-    else
-      -- no need to use blocks
-      let bvOpt := match blk with | some _ => some (blockValue 0 0 b2) | none => none
-      let tokOpts1 := tokLen + optBytes + (match bvOpt with | some v => blkOptLen v | none => 0)
-      if length ≠ 0 ∧ tokOpts1 + 1 + length > maxSize then none
-      else some { lgXmit := false, blkSize := b2, blockVal := bvOpt, payload := length,
-                  used := tokOpts1 + (if length = 0 then 0 else 1 + length) }
+  adlBody maxSize tokLen (tokLen + optBytes) d tokOpts0 b2 length
+    (optEncodeSize (60 - 27) (varLen length) + optEncodeSize (292 - 60) rtagLen) blk
 
 /-! ## received-ranges structure -/
 
